@@ -26,6 +26,9 @@ pub fn vpanic()
 /// PHYSICAL BOUND (assumption, used at named call sites only): no in-memory buffer holds 2^60 elements.
 pub axiom fn axiom_physical_vec<T>(v: &Vec<T>)
     ensures v@.len() < 0x1000_0000_0000_0000;
+/// PHYSICAL BOUND on byte counters (assumption at named call sites): fewer than 2^62 bytes were ever written
+pub axiom fn axiom_physical_u64(x: u64)
+    ensures x < 0x4000_0000_0000_0000;
 pub axiom fn axiom_physical_slice<T>(s: &[T])
     ensures s@.len() < 0x1000_0000_0000_0000;
 
@@ -232,6 +235,11 @@ pub struct ExIoError(std::io::Error);
 #[verifier::external_type_specification]
 pub struct ExSeekFrom(std::io::SeekFrom);
 
+#[verifier::reject_recursive_types(T)]
+#[verifier::external_type_specification]
+#[verifier::external_body]
+pub struct ExCursor<T>(std::io::Cursor<T>);
+
 /// all bytes the sink has accepted so far (ghost log)
 pub uninterp spec fn sink_bytes<W: ?Sized>(w: &W) -> Seq<u8>;
 /// validity predicate of a sink (for wrappers: their representation invariant)
@@ -318,6 +326,14 @@ pub trait ExSeek {
 }
 } // mod vio
 
+/// stand-in for the `bytemuck` crate (only referenced from bodies that stay external to Verus; Kani checks them)
+pub mod bytemuck {
+use vstd::prelude::*;
+#[verifier::external_body]
+pub fn cast_slice<A, B>(a: &[A]) -> &[B] { unimplemented!() }
+#[verifier::external_body]
+pub fn cast_slice_mut<A, B>(a: &mut [A]) -> &mut [B] { unimplemented!() }
+}
 /// stand-in for the `byteorder` crate: read_uN/write_uN are read_exact/write_all of the fixed-endian encoding
 pub mod byteorder {
 use vstd::prelude::*;
